@@ -18,6 +18,7 @@
 
 #include "libfive.h"
 #include "libfive/tree/tree.hpp"
+#include <set>
 #include "libfive/tree/data.hpp"
 #include "libfive/tree/opcode.hpp"
 #include "libfive/tree/archive.hpp"
@@ -1437,6 +1438,58 @@ int main(int argc, char** argv) {
                 }
                 o << zeros << " filled=" << pts;
                 out(o.str());
+            }
+            else if (c == "sxgrid") {
+                // sxgrid h level lx ly lz ux uy uz workers : the simplex mesher without collapsing on a 2^level grid,
+                // with the inside flags of every subspace vertex (doubled lattice coordinates), for the
+                // correspondence with Render/SimplexGrid.v
+                Tree tr = H(t[1]);
+                int level = std::stoi(t[2]);
+                Eigen::Vector3d lo(of_hex32(t[3]), of_hex32(t[4]), of_hex32(t[5])), hi(of_hex32(t[6]), of_hex32(t[7]), of_hex32(t[8]));
+                BRepSettings st;
+                st.alg = ISO_SIMPLEX; st.workers = (unsigned)std::stoul(t[9]); st.max_err = -1;
+                st.min_feature = (hi - lo).minCoeff() / (1 << level) * 1.0001;
+                Region<3> rg(lo, hi);
+                const int n = 1 << level;
+                std::vector<Evaluator, Eigen::aligned_allocator<Evaluator>> es;
+                es.reserve(st.workers);
+                const auto topt = tr.optimized();
+                for (unsigned i = 0; i < st.workers; ++i) es.emplace_back(Evaluator(topt));
+                auto root = SimplexWorkerPool<3>::build(es.data(), rg, st);
+                root->assignIndices(st);
+                std::set<std::array<int, 3>> inside;
+                int uneven = 0;
+                const double hcell = (hi.x() - lo.x()) / n;
+                std::function<void(const SimplexTree<3>*)> walk = [&](const SimplexTree<3>* c) {
+                    if (c->isBranch()) { for (auto& ch : c->children) walk(ch.load()); return; }
+                    int i0[3], i1[3];
+                    for (int a = 0; a < 3; ++a) {
+                        i0[a] = (int)std::lround((c->region.lower(a) - lo(a)) / hcell);
+                        i1[a] = (int)std::lround((c->region.upper(a) - lo(a)) / hcell);
+                    }
+                    if (c->type == Interval::FILLED) {
+                        for (int x = 2 * i0[0]; x <= 2 * i1[0]; ++x) for (int y = 2 * i0[1]; y <= 2 * i1[1]; ++y)
+                            for (int z = 2 * i0[2]; z <= 2 * i1[2]; ++z) inside.insert({x, y, z});
+                    } else if (c->type == Interval::AMBIGUOUS && c->leaf) {
+                        if (i1[0] - i0[0] != 1) ++uneven;          // an ambiguous leaf above the finest level
+                        for (unsigned sidx = 0; sidx < 27; ++sidx) {
+                            auto sub = c->leaf->sub[sidx].load();
+                            if (sub && sub->inside) {
+                                static const int off[3] = {0, 2, 1};
+                                inside.insert({2 * i0[0] + off[sidx % 3], 2 * i0[1] + off[(sidx / 3) % 3], 2 * i0[2] + off[(sidx / 9) % 3]});
+                            }
+                        }
+                    }
+                };
+                walk(root.get());
+                auto mesh = Dual<3>::walk_<SimplexMesher>(root, st,
+                        [&](PerThreadBRep<3>& brep, int i) { return SimplexMesher(brep, &es[i]); });
+                std::ostringstream o;
+                o << "SG n=" << n << " tris=" << (mesh ? mesh->branes.size() : 0) << " closed=" << (mesh ? mesh_closed(*mesh) : 0)
+                  << " uneven=" << uneven << " inside=";
+                for (auto& p3 : inside) o << " " << p3[0] << "," << p3[1] << "," << p3[2];
+                out(o.str());
+                root.reset(st);
             }
             else if (c == "contourgrid") {
                 // contourgrid h level lx ly ux uy z workers : the 2D analogue, for Render/DCGrid2.v
